@@ -138,6 +138,30 @@ def signature(prop, where, cfg, clause, path):
     return f"{prop}/{where}/{canon(cfg)}/{clause_id(clause)}/{canon(path)}"
 
 
+def finding_matches(match, v):
+    """A known finding may name the failing shape by a pattern instead of a list of exact signatures:
+    {"where": harness/family, "clause": clause id, "cfg": {key: value | [allowed values]}, "cfg_has": {key: substring}} --
+    every given item must match; anything else about the violation is free, anything not matching is reported normally."""
+    if not match:
+        return False
+    if "where" in match and v["where"] != match["where"]:
+        return False
+    if "clause" in match and clause_id(v["clause"]) != match["clause"]:
+        return False
+    cfg = v.get("cfg") or {}
+    for k, want in (match.get("cfg") or {}).items():
+        got = cfg.get(k) if isinstance(cfg, dict) else None
+        if isinstance(want, list):
+            if got not in want:
+                return False
+        elif got != want:
+            return False
+    for k, sub in (match.get("cfg_has") or {}).items():
+        if sub not in canon(cfg.get(k) if isinstance(cfg, dict) else None):
+            return False
+    return True
+
+
 class Report:
     """Collects what one check run covered and decides the exit status."""
 
@@ -209,6 +233,8 @@ class Report:
         new, known_hit = [], []
         for v in self.viol:
             k = open_sigs.get(v["signature"])
+            if k is None:
+                k = next((f for f in known if f.get("status") == "open" and finding_matches(f.get("match"), v)), None)
             if k is not None:
                 known_hit.append((k, v))
             else:
